@@ -31,11 +31,15 @@ META = {
         "class emitter stubbed: LSPRequest carries the exact method string and typeof(the response class emitted for "
         "the same request), LSPResponse the request class, Direction the metamodel's direction of that method. "
         "(7) the dotnet flattening (own / extends / mixins, nearest declaration wins) is folded on the synthetic "
-        "inheritance lattice of C06 and compared with the reference flattening."),
+        "inheritance lattice of C06 and compared with the reference flattening. (8) type mapping: get_type_name is "
+        "folded on one synthetic type per kind (9 base types, struct / closed / open-string / open-integer enum "
+        "references, arrays, maps, tuples, string literals, unions with and without null, nested forms) and must give "
+        "the C# type of the mapping stated in the checker; generate_property declares the member with exactly that "
+        "name."),
     "trusted_base": ["Python scoping: a for target keeps its last value after the loop",
                      "E5 evaluates the plugin's string-building code as CPython would"],
     "assumptions": [],
-    "not_decided": ["the C# type-name mapping itself (get_type_name is stubbed in the folds)",
+    "not_decided": ["C# names generated for anonymous literal types and for `or`-valued map values (fresh class names)",
                     "the emitted .cs files for evolved metamodels (needs running the plugin)"],
 }
 
@@ -367,12 +371,113 @@ def _fold_members(ctx: Ctx, idx):
     ctx.floor("generate_property cases folded", n, 12)
 
 
+# the C# type of a member: get_type_name folded (E5) on one synthetic type per kind and compared with the mapping
+# stated here (the reference is the mapping confirmed on the pinned tree; DESIGN 3/C08)
+CS_BASE = {"string": "string", "RegExp": "string", "DocumentUri": "Uri", "URI": "Uri", "decimal": "float",
+           "integer": "int", "uinteger": "long", "boolean": "bool", "null": "object"}
+
+
+def _fold_type_names(ctx: Ctx, idx):
+    from .. import microeval
+    from ..microeval import Record, Raised
+    cm = idx.get(P_CLASSES)
+    hm = idx.get("generator/plugins/dotnet/dotnet_helpers.py")
+    hit = microeval.Interp(hm.tree, name=hm.rel)
+    it = microeval.Interp(cm.tree, name=P_CLASSES)
+    for nm, v in hit.globals.items():
+        it.globals.setdefault(nm, v)
+    gtn = cm.functions.get("get_type_name")
+    if gtn is None:
+        raise AnalysisError(f"{P_CLASSES}: get_type_name not found")
+    ctx.fn("dotnet_classes.py:get_type_name")
+
+    def T(kind, **kw):
+        return Record("Type", {"kind": kind, **kw})
+
+    def item(v):
+        return Record("EnumItem", {"name": f"M{v}", "value": v, "proposed": None})
+
+    def enum(name, values, custom):
+        return Record("Enum", {"name": name, "values": [item(v) for v in values], "supportsCustomValues": custom,
+                               "type": T("base", name="string" if isinstance(values[0], str) else "integer"),
+                               "proposed": None})
+    spec = Record("Spec", {
+        "enumerations": [enum("ClosedKind", ["a", "b"], None), enum("ClosedFlag", ["a", "b"], False),
+                         enum("OpenStrKind", ["a", "b"], True), enum("OpenIntKind", [1, 2], True),
+                         enum("ClosedIntKind", [1, 2], None)],
+        "structures": [Record("Structure", {"name": "Range", "properties": []}), Record("Structure", {"name": "Command", "properties": []})],
+        "typeAliases": [], "requests": [], "notifications": []})
+    types = Record("TypeData", {"get_by_name": ("host", lambda *a, **k: None), "add_type_info": ("host", lambda *a, **k: None)})
+    null = T("base", name="null")
+    b = lambda n: T("base", name=n)   # noqa: E731
+    ref = lambda n: T("reference", name=n)   # noqa: E731
+    cases = [(f"base:{n}", b(n), cs) for n, cs in CS_BASE.items()]
+    cases += [
+        ("reference:structure", ref("Range"), "Range"),
+        ("reference:Command", ref("Command"), "CommandAction"),
+        ("reference:closed-enum", ref("ClosedKind"), "ClosedKind"),
+        ("reference:closed-enum-explicit-false", ref("ClosedFlag"), "ClosedFlag"),
+        ("reference:closed-int-enum", ref("ClosedIntKind"), "ClosedIntKind"),
+        ("reference:open-string-enum", ref("OpenStrKind"), "string"),
+        ("reference:open-integer-enum", ref("OpenIntKind"), "int"),
+        ("array:string", T("array", element=b("string")), "ImmutableArray<string>"),
+        ("array:uinteger", T("array", element=b("uinteger")), "ImmutableArray<long>"),
+        ("array:reference", T("array", element=ref("Range")), "ImmutableArray<Range>"),
+        ("array:array", T("array", element=T("array", element=b("integer"))), "ImmutableArray<ImmutableArray<int>>"),
+        ("map:string->integer", T("map", key=b("string"), value=b("integer")), "ImmutableDictionary<string, int>"),
+        ("map:DocumentUri->array", T("map", key=b("DocumentUri"), value=T("array", element=ref("Range"))),
+         "ImmutableDictionary<Uri, ImmutableArray<Range>>"),
+        ("stringLiteral", T("stringLiteral", value="create"), "string"),
+        ("tuple:(uinteger,string)", T("tuple", items=[b("uinteger"), b("string")]), "(long, string)"),
+        ("or:string|null", T("or", items=[b("string"), null]), "string"),
+        ("or:null|reference", T("or", items=[null, ref("Range")]), "Range"),
+        ("or:string|integer", T("or", items=[b("string"), b("integer")]), "OrType<string, int>"),
+        ("or:string|integer|null", T("or", items=[b("string"), b("integer"), null]), "OrType<string, int>"),
+        ("or:reference|boolean", T("or", items=[ref("Range"), b("boolean")]), "OrType<Range, bool>"),
+        ("array:or", T("array", element=T("or", items=[b("string"), ref("Range")])), "ImmutableArray<OrType<string, Range>>"),
+        ("or:array|reference", T("or", items=[T("array", element=b("string")), ref("Range")]), "OrType<ImmutableArray<string>, Range>"),
+    ]
+    n = 0
+    for label, ty, want in cases:
+        try:
+            got = it.call(gtn, [ty, types, spec, "SomeClass_someProp"])
+        except Raised as e:
+            got = f"<raises {e.exc_name}>"
+        n += 1
+        ctx.check(got == want, "member-type-mapped", f"get_type_name:{label}",
+                  f"a property of type {label} gets the C# type `{got}`; the mapping is `{want}`", P_CLASSES, gtn.lineno,
+                  sample={"type": label, "cs": got})
+    ctx.floor("type kinds folded through get_type_name", n, 25)
+    # the member line uses that name: generate_property hands the result of get_type_name to the member template
+    gp = cm.functions.get("generate_property")
+    marker = {}
+    it2 = microeval.Interp(cm.tree, name=P_CLASSES)
+    for nm, v in hit.globals.items():
+        it2.globals.setdefault(nm, v)
+    it2.globals["get_type_name"] = ("host", lambda ty, *a, **k: marker.setdefault("seen", ty) and "MarkerType")
+    for nm in ("get_doc", "generate_extras"):
+        it2.globals[nm] = ("host", lambda *a, **k: [])
+    it2.globals["get_converter"] = ("host", lambda *a, **k: None)
+    pty = ref("Range")
+    prop = Record("Property", {"name": "someProp", "type": pty, "optional": False, "documentation": None, "since": None,
+                               "proposed": None, "deprecated": None})
+    try:
+        lines, tn = it2.call(gp, [prop, spec, types, [], "SomeClass"])
+    except Raised as e:
+        raise AnalysisError(f"{P_CLASSES}: generate_property raises {e.exc_name} when folded")
+    member = next((l for l in lines if l.startswith("public ")), "")
+    ctx.check(marker.get("seen") is pty and member.startswith("public MarkerType ") and tn == "MarkerType",
+              "member-type-mapped", "generate_property:uses-get_type_name",
+              f"the member line `{member}` is not declared with get_type_name(<the property's own type>)", P_CLASSES, gp.lineno)
+
+
 _run_base = run
 
 
 def run(ctx: Ctx):  # noqa: F811
     _run_base(ctx)
     idx = Index(ctx.src, dirs=("generator/plugins/dotnet",))
+    _fold_type_names(ctx, idx)
     _fold_members(ctx, idx)
 
 
